@@ -24,7 +24,7 @@ type Ctx struct {
 // Prog loads (once) the configuration with the given build tags.
 func (c *Ctx) Prog(tags string) *Prog {
 	if p, ok := c.progs[tags]; ok {
-		c.R.cfg = cfgName(tags)
+		c.noteConfig(p, tags)
 		return p
 	}
 	p, err := Load(tags, overlayForLoad)
@@ -36,6 +36,11 @@ func (c *Ctx) Prog(tags string) *Prog {
 		return nil
 	}
 	c.progs[tags] = p
+	c.noteConfig(p, tags)
+	return p
+}
+
+func (c *Ctx) noteConfig(p *Prog, tags string) {
 	c.R.cfg = cfgName(tags)
 	found := false
 	for _, x := range c.R.Configs {
@@ -49,7 +54,6 @@ func (c *Ctx) Prog(tags string) *Prog {
 	if p.NFuncs > c.R.Funcs {
 		c.R.Funcs = p.NFuncs
 	}
-	return p
 }
 
 func cfgName(tags string) string {
